@@ -146,6 +146,11 @@ impl Script {
                         _ => cursor.read_u32::<LittleEndian>()? as usize,
                     };
 
+                    // Never allocate by a declared length that the remaining input cannot satisfy
+                    if data_length > bytes.len().saturating_sub(cursor.position() as usize) {
+                        return Err(BSVErrors::DeserialiseScript("OP_PUSHDATA length exceeds the remaining script bytes".into()));
+                    }
+
                     let mut data = vec![0; data_length];
                     if let Err(e) = cursor.read_exact(&mut data) {
                         return Err(BSVErrors::DeserialiseScript(format!("Failed to read OP_PUSHDATA data {}", e)));
